@@ -1,14 +1,22 @@
 ----------------------------- MODULE SchemaRand -----------------------------
 (* Seeded sampling (TLC RandomElement, -seed) of schemas larger than the
-   enumerated shapes, for the code -> model direction of C17 and C18.  Names are
-   unique in the whole schema (derived from the position), so every generated
-   schema is legal YANG.  mode "path": no constraints; mode "data": mandatory,
-   default, min-/max-elements, unique, default / mandatory choices (respecting
-   RFC 6020: no default on a mandatory leaf, no mandatory node under a default
-   case, unique leaves without defaults).                                       *)
+   enumerated shapes, for the code -> model direction of C17 and C18.
+   Names: every node has a position (a unique string of a..e letters); its name
+   is the position string, except that - wherever YANG allows two nodes to share
+   a name - it is sometimes the name of its parent: the first child of a
+   container, list or case may be named like that parent, the first case of a
+   choice like the choice, and a case may be a short-hand (the data node itself,
+   so choice, implicit case and node can all three coincide).  Siblings always
+   differ, and so do the data nodes lifted out of the cases of one choice, so
+   every generated schema is legal YANG.  Types are string / int8 / empty, direct
+   or through a typedef.  mode "path": no constraints; mode "data": mandatory,
+   default, min-/max-elements, one to three unique statements, default /
+   mandatory choices (respecting RFC 6020: no default on a mandatory leaf, no
+   mandatory node under a default case, unique leaves without defaults).       *)
 EXTENDS SchemaNodes, TLC
 
 Dig(i) == CASE i = 1 -> "a" [] i = 2 -> "b" [] i = 3 -> "c" [] i = 4 -> "d" [] OTHER -> "e"
+CaseKidsR(c) == IF c.kind = "case" THEN c.kids ELSE <<c>>
 
 \* a mandatory node in the sense of RFC 6020 section 3.1, anywhere below kids
 RECURSIVE AnyMandatory(_)
@@ -20,54 +28,74 @@ AnyMandatory(kids) ==
      \/ c.kind \in {"choice", "case"} /\ AnyMandatory(c.kids)
 
 RandLeaf(nm, mode) ==
-  LET t == RandomElement({"string", "string", "int8", "int8", "empty"})
+  LET t == RandomElement({"string", "tstring", "int8", "tint8", "empty", "tempty"})
       r == RandomElement(1..4) IN
   IF mode = "path" THEN Leaf(nm, t)
   ELSE IF r = 1 THEN LeafM(nm, t)
-  ELSE IF r = 2 /\ t # "empty" THEN LeafD(nm, t, IF t = "int8" THEN "7" ELSE "dv")
+  ELSE IF r = 2 /\ ~IsEmptyType(t) THEN LeafD(nm, t, IF BaseType(t) = "int8" THEN "7" ELSE "dv")
   ELSE Leaf(nm, t)
 RandLL(nm, mode) ==
-  LET t == RandomElement({"string", "int8"})
+  LET t == RandomElement({"string", "int8", "tint8"})
       mm == RandomElement({<<0, 0>>, <<0, 0>>, <<1, 0>>, <<0, 2>>, <<1, 2>>, <<2, 3>>}) IN
   IF mode = "path" THEN LL(nm, t) ELSE LLmm(nm, t, mm[1], mm[2])
 
-RECURSIVE RandNode(_, _, _), RandKids(_, _, _, _), RandCases(_, _, _, _)
-RandKids(pfx, d, n, mode) ==
-  IF n = 0 THEN << >> ELSE RandKids(pfx, d, n - 1, mode) \o <<RandNode(pfx \o Dig(n), d, mode)>>
-\* (built by concatenation: a function constructor would be evaluated lazily, drawing again at every use)
-RandCases(pfx, d, n, mode) ==
+\* one to three unique statements over the candidate leaves (indices ul of kids)
+RandUniq(kids, ul) ==
+  LET u == RandomElement(1..6)
+      a == CHOOSE i \in ul : TRUE
+      b == CHOOSE i \in ul \ {a} : TRUE
+      c == CHOOSE i \in ul \ {a, b} : TRUE
+      P(i) == <<kids[i].name>> IN
+  IF ul = {} \/ u = 1 THEN << >>
+  ELSE IF Cardinality(ul) = 1 \/ u = 2 THEN << <<P(a)>> >>
+  ELSE IF u = 3 THEN << <<P(a), P(b)>> >>
+  ELSE IF Cardinality(ul) = 2 \/ u = 4 THEN << <<P(a)>>, <<P(b)>> >>                \* two single-leaf statements
+  ELSE IF u = 5 THEN << <<P(a)>>, <<P(b)>>, <<P(c), P(a)>> >>
+  ELSE << <<P(a), P(b)>>, <<P(c)>> >>
+
+\* (sequences are built by concatenation: a function constructor would be evaluated
+\*  lazily, drawing again at every use)
+\* RandNode(nm, pos, d, mode): a node named nm at position pos
+\* RandKids(parent, pos, d, n, mode): n children of the node named parent at position pos
+RECURSIVE RandNode(_, _, _, _), RandKids(_, _, _, _, _), RandCases(_, _, _, _, _)
+RandKids(parent, pos, d, n, mode) ==
   IF n = 0 THEN << >>
-  ELSE LET m == RandomElement(1..2) IN
-       RandCases(pfx, d, n - 1, mode) \o <<Case(pfx \o Dig(n) \o "x", RandKids(pfx \o Dig(n), d, m, mode))>>
-RandNode(nm, d, mode) ==
+  ELSE LET share == RandomElement(1..3)
+           nm    == IF n = 1 /\ parent # "" /\ share = 1 THEN parent ELSE pos \o Dig(n)
+       IN RandKids(parent, pos, d, n - 1, mode) \o <<RandNode(nm, pos \o Dig(n), d, mode)>>
+RandCases(choice, pos, d, n, mode) ==
+  IF n = 0 THEN << >>
+  ELSE LET m     == RandomElement(1..2)
+           share == RandomElement(1..3)
+           short == RandomElement(1..4)
+           cn    == IF n = 1 /\ share = 1 THEN choice ELSE pos \o Dig(n) \o "x"
+       IN RandCases(choice, pos, d, n - 1, mode) \o
+          <<IF short = 1 THEN RandNode(cn, pos \o Dig(n), 0, mode)          \* short-hand case: a leaf / leaf-list
+            ELSE Case(cn, RandKids(cn, pos \o Dig(n), d, m, mode))>>
+RandNode(nm, pos, d, mode) ==
   LET k == RandomElement(1..10) IN
   IF d = 0 \/ k <= 3 THEN (IF k = 10 \/ k = 3 THEN RandLL(nm, mode) ELSE RandLeaf(nm, mode))
   ELSE IF k <= 5 THEN
        LET nk   == RandomElement(0..3)
-           kids == RandKids(nm, d - 1, nk, mode)
+           kids == RandKids(nm, pos, d - 1, nk, mode)
            pr   == RandomElement(1..2) IN
        IF pr = 1 THEN PCont(nm, kids) ELSE Cont(nm, kids)
   ELSE IF k <= 7 THEN
-       LET kt   == RandomElement({"string", "int8"})
+       LET kt   == RandomElement({"string", "int8", "tstring"})
            nk   == RandomElement(0..3)
-           kids == <<Leaf(nm \o "k", kt)>> \o RandKids(nm, d - 1, nk, mode)
-           u1   == RandomElement(1..2)
-           u2   == RandomElement(1..2)
-           ul   == {i \in 2..Len(kids) : kids[i].kind = "leaf" /\ kids[i].def = "" /\ kids[i].typ # "empty"}
+           key  == pos \o "k"
+           kids == <<Leaf(key, kt)>> \o RandKids(nm, pos, d - 1, nk, mode)
+           ul   == {i \in 2..Len(kids) : kids[i].kind = "leaf" /\ kids[i].def = "" /\ ~IsEmptyType(kids[i].typ)}
            mm   == RandomElement({<<0, 0>>, <<0, 0>>, <<1, 0>>, <<0, 2>>, <<1, 2>>})
-           uq   == IF ul = {} \/ u1 = 1 THEN << >>
-                   ELSE IF Cardinality(ul) >= 2 /\ u2 = 1
-                        THEN LET a == CHOOSE i \in ul : TRUE  b == CHOOSE i \in ul \ {a} : TRUE
-                             IN << << <<kids[a].name>>, <<kids[b].name>> >> >>
-                        ELSE << << <<kids[CHOOSE i \in ul : TRUE].name>> >> >>
-       IN IF mode = "path" THEN List(nm, nm \o "k", kids) ELSE ListX(nm, nm \o "k", mm[1], mm[2], uq, kids)
+           uq   == RandUniq(kids, ul)
+       IN IF mode = "path" THEN List(nm, key, kids) ELSE ListX(nm, key, mm[1], mm[2], uq, kids)
   ELSE LET nc == RandomElement(1..3)
-           cs == RandCases(nm, d - 1, nc, mode)
+           cs == RandCases(nm, pos, d - 1, nc, mode)
            r  == RandomElement(1..3) IN
        IF mode = "path" THEN Choice(nm, cs)
-       ELSE IF r = 1 /\ ~AnyMandatory(cs[1].kids) THEN ChoiceD(nm, cs[1].name, cs)
+       ELSE IF r = 1 /\ ~AnyMandatory(CaseKidsR(cs[1])) THEN ChoiceD(nm, cs[1].name, cs)
        ELSE IF r = 2 THEN ChoiceM(nm, cs)
        ELSE Choice(nm, cs)
 
-RandSchema(d, mode) == LET n == RandomElement(2..4) IN RandKids("", d, n, mode)
+RandSchema(d, mode) == LET n == RandomElement(2..4) IN RandKids("", "", d, n, mode)
 =============================================================================
